@@ -14,7 +14,6 @@ fn base(stats_each: bool) -> HistProp {
     let mut rc = RunCfg::new(&[Aspect::Stats, Aspect::Fsck, Aspect::Panic, Aspect::Budget]);
     rc.fsck_kinds = vec![Fk::Lost, Fk::SizeChain, Fk::FatRange, Fk::CrossLink, Fk::Cycle];
     rc.stats_each = stats_each;
-    rc.known.dst_inside_src = crate::run::known_active("C03", "rename-dir-into-own-subtree");
     let mut gc = GenCfg::mixed();
     gc.weights = vec![
         (K::Stats, if stats_each { 0 } else { 8 }),
